@@ -215,22 +215,22 @@ theorem nmStep_cont {ftol : Rat} {ndim : Nat} {s s' : NM} {tr : List EvN} (hn : 
       exact amotry_below rnd f _ _ _ _ (amotry_below rnd f _ _ _ _ hb)
   · -- contraction failed: shrink towards the best vertex
     obtain ⟨rfl, _⟩ := h
-    have hinv1 := amotry_inv rnd f ndim _ (scan s.y).ihi (-1) hinv0
-    have hinv2 := amotry_inv rnd f ndim _ (scan s.y).ihi (1/2) hinv1
-    have hy2 := amotry_y rnd f ndim (amotry rnd f ndim { s with nfunc := s.nfunc + 2 } (scan s.y).ihi (-1)).1 (scan s.y).ihi (1/2)
+    have hinv1 := amotry_inv rnd f ndim _ (scan s.y).ihi K.nmReflect hinv0
+    have hinv2 := amotry_inv rnd f ndim _ (scan s.y).ihi K.nmContract hinv1
+    have hy2 := amotry_y rnd f ndim (amotry rnd f ndim { s with nfunc := s.nfunc + 2 } (scan s.y).ihi K.nmReflect).1 (scan s.y).ihi K.nmContract
     rw [if_neg (not_lt.mpr h5)] at hy2
-    have hlen2 : (amotry rnd f ndim (amotry rnd f ndim { s with nfunc := s.nfunc + 2 } (scan s.y).ihi (-1)).1 (scan s.y).ihi (1/2)).1.y.length = s.y.length := by
+    have hlen2 : (amotry rnd f ndim (amotry rnd f ndim { s with nfunc := s.nfunc + 2 } (scan s.y).ihi K.nmReflect).1 (scan s.y).ihi K.nmContract).1.y.length = s.y.length := by
       rw [amotry_length, amotry_length]
-    have hpl : (amotry rnd f ndim (amotry rnd f ndim { s with nfunc := s.nfunc + 2 } (scan s.y).ihi (-1)).1 (scan s.y).ihi (1/2)).1.p.length = s.y.length := by
+    have hpl : (amotry rnd f ndim (amotry rnd f ndim { s with nfunc := s.nfunc + 2 } (scan s.y).ihi K.nmReflect).1 (scan s.y).ihi K.nmContract).1.p.length = s.y.length := by
       rw [← hlen2, hinv2, List.length_map]
     refine ⟨?_, ?_, ?_⟩
     · exact shrinkAll_inv rnd f _ _ _ _ _ _ hinv2
     · simp only
       rw [shrinkAll_length, hpl]
     · intro M hb
-      have hb1 : Below (amotry rnd f ndim { s with nfunc := s.nfunc + 2 } (scan s.y).ihi (-1)).1.y M :=
+      have hb1 : Below (amotry rnd f ndim { s with nfunc := s.nfunc + 2 } (scan s.y).ihi K.nmReflect).1.y M :=
         amotry_below rnd f _ _ _ _ hb
-      have hle := lo_still_min hc _ _ (amotry_y rnd f ndim { s with nfunc := s.nfunc + 2 } (scan s.y).ihi (-1)) h3 hb1
+      have hle := lo_still_min hc _ _ (amotry_y rnd f ndim { s with nfunc := s.nfunc + 2 } (scan s.y).ihi K.nmReflect) h3 hb1
       refine ⟨(scan s.y).ilo, _, ?_, hle⟩
       simp only
       rw [shrinkAll_keep rnd f ndim _ _ _ 0 (scan s.y).ilo _ (by rw [hlen2, hpl]) (by omega) (by rw [hpl]; exact hc.ilo_lt), hy2]
